@@ -147,5 +147,27 @@ _FRONT = (" Front end: every module is parsed, canonicalised (hexlint/normalize.
           "positional vs keyword arguments, match statements, assignment expressions, small value classes / enums / lookup tables, methods moved to functions and modules) "
           "present the same program to the rules; a shape the analysis cannot follow, or a report inside a function that relies on a helper class that could not be dissolved, "
           "is ANALYSIS-ERROR (exit 2, 'cannot decide'), never a violation.")
+
+# ---- additions after refactoring rounds 4-6 and seeding round 7: rules decided by evaluation on model inputs (convsem / helpersem)
+_EVAL = (" Rules about small look-up / dispatch code (the input converters, CandleManager.append's dispatch and copies, Candle.raw_copy, the look-up helpers "
+         "reading_by_candle / reading_by_index / reading_count / reading_period / candles_sum and their Indicator wrappers, Managed.set_reading, Hexital.reading, "
+         "has_reading / prev_exists, selection by name in Hexital.purge / calculate / calculate_index, Hexital.append's fan-out) are decided by evaluating that code with "
+         "hexlint's own interpreter over the loaded syntax trees on a fixed family of model inputs (shape-level abstract interpretation: concrete shapes, opaque leaves "
+         "where the property allows; nothing of /repo is imported or run); the verdict covers the listed inputs and whatever the code does uniformly in the leaves, the "
+         "evidence lists them; a construct outside the interpreter's subset is 'cannot decide'.")
+_EVAL_PROPS = ("C01", "C02", "C03", "C04", "C05", "C06", "C08", "C09", "C10", "C11", "C12", "C13", "C14", "C15", "C16", "C19", "C20")
+for _k in _EVAL_PROPS:
+    CLAIMED[_k]["note"] = CLAIMED[_k]["note"] + _EVAL
+_TECH_ADD = {
+    "C19": "interprocedural write-effect / alias analysis to a fixed point + shape-level abstract interpretation (convsem) of the converters, CandleManager.append and Candle.raw_copy on model inputs",
+    "C20": "funnel / contract rules over the accessor call graph + abstract interpretation of the index helpers + evaluation (convsem / helpersem) of the look-up helpers, Hexital.reading and the presence tests on model inputs",
+    "C03": None, "C08": None, "C13": None,
+}
+for _k, _v in _TECH_ADD.items():
+    if _v:
+        CLAIMED[_k]["technique"] = _v
+    else:
+        CLAIMED[_k]["technique"] = CLAIMED[_k]["technique"] + " + evaluation of dispatch / selection code on model inputs (convsem)"
+_FRONT = _FRONT.replace("present the same program to the rules;", "present the same program to the rules (also: single-use locals forward-substituted, aliases of attribute paths expanded under a package-wide may-write summary, comprehensions and loops over constant tuples unrolled);")
 for _k in CLAIMED:
     CLAIMED[_k]["note"] = CLAIMED[_k]["note"] + _FRONT
